@@ -424,3 +424,9 @@ def check(ctx):
                          "that just ended (get_current_chain().get()), i.e. that epoch's own "
                          "recorded history", ok_h, detail=short(hist or (), 200),
            stmt="history source " + pretty(hist or ())[:160])
+
+    # ---- shared mechanisms: the neighbour's rules run as obligations of this property
+    ctx.include("C07", "C12.R4", only=['C07.R4'])
+    ctx.rule("R4", "shared mechanisms, run as obligations of this property: the engine calls "
+                   "the tuner after EVERY adaptation epoch (guard exactly is_adaptation) and "
+                   "hands it the recorded history whenever a kernel needs it (C07.R4).")
